@@ -31,6 +31,9 @@ def run_worker_script(answers):
         def is_set(self):
             return bool(sc.next("stop")[1])
 
+        def wait(self, timeout=None):
+            return self.is_set()
+
     class InQ:
         def get(self, timeout=None, block=True):
             a = sc.next("get")
@@ -48,7 +51,30 @@ def run_worker_script(answers):
         def put(self, x, *a, **k):
             self.put_nowait(x)
 
+        def get_nowait(self):
+            return self.get(block=False)
+
+        def empty(self):
+            return False
+
+        def full(self):
+            return False
+
+        def qsize(self):
+            return 1
+
     class OutQ:
+        # what a query of the queue's filling level says is out of date by the time of the next put (sibling producers):
+        # "there is room" is always a possible answer, the put itself follows the script
+        def full(self):
+            return False
+
+        def empty(self):
+            return True
+
+        def qsize(self):
+            return 0
+
         def put(self, x, timeout=None, block=True):
             a = sc.next("put")
             if not a[1]:
@@ -68,6 +94,9 @@ def run_worker_script(answers):
         trace["exited"] = "sentinel" if trace["sentinel_back"] else "stop"
     except _ScriptEnd:
         trace["exited"] = None
+    except Exception as e:      # run() itself let an exception escape: the worker process would die
+        trace["exited"] = "exception"
+        trace["exception"] = "%s: %s" % (type(e).__name__, e)
     return trace
 
 
@@ -75,4 +104,45 @@ def op_worker_scripts(req):
     return {"ok": True, "traces": [run_worker_script(s) for s in req["scripts"]]}
 
 
-OPS = {"worker.scripts": op_worker_scripts}
+def op_realproc(req):
+    """A real WorkerProcess in a real process, real multiprocessing queues: n jobs then the sentinel, results of `size` bytes,
+    a consumer that starts reading `delay` seconds late. Returns what arrived, in order, and whether the sentinel came back."""
+    import multiprocessing as mp, time
+    from transposon.worker import WorkerProcess, Sentinel
+    n, size, delay = req["n"], req["size"], req["delay"]
+
+    class W(WorkerProcess):
+        def execute_job(self, job):
+            return (job, b"x" * size)
+
+    jq, rq, ev = mp.Queue(), mp.Queue(maxsize=req.get("maxsize", 0)), mp.Event()
+    for j in range(n):
+        jq.put(j)
+    jq.put(Sentinel())
+    w = W(jq, rq, ev)
+    w.start()
+    got, t0 = [], time.time()
+    try:
+        time.sleep(delay)
+        while len(got) < n and time.time() - t0 < req.get("patience", 15):
+            try:
+                got.append(rq.get(timeout=0.5)[0])
+            except queue.Empty:
+                if not w.is_alive() and time.time() - t0 > delay + 3:
+                    break
+        w.join(timeout=5)
+        alive = w.is_alive()
+        back = None
+        try:
+            back = isinstance(jq.get(timeout=1), Sentinel)
+        except queue.Empty:
+            back = False
+        return {"ok": True, "got": got, "exitcode": w.exitcode, "still_alive": alive, "sentinel_back": back, "seconds": round(time.time() - t0, 2)}
+    finally:
+        if w.is_alive():
+            w.kill()
+        for q_ in (jq, rq):
+            q_.cancel_join_thread()
+
+
+OPS = {"worker.scripts": op_worker_scripts, "worker.realproc": op_realproc}
